@@ -54,6 +54,14 @@ CLAIMS = {
              "the conversion and every written result table is one the mode re-initialises; start voltages taken from "
              "result tables pass a NaN replacement; no memoisation on the calculation path.",
              "interprocedural must-definedness (typestate) walk with constant propagation + taint analysis on ast"),
+    "C10": C("Only the bookkeeping of slack weights is claimed: every table with a slack_weight column is written to SL_FAC "
+             "with its in-service mask; weights and buses are paired by position through order-preserving steps; per-island "
+             "normalisation divides by the sum over the island's rows and stores grouped bus weights; the split at shared "
+             "buses uses one row set; the mismatch carries + weights*slack over the ref rows and both Jacobian siblings get "
+             "the weights; weighted buses/gens join ref/ref_gens; xward results add the variable power to the rows of the bus "
+             "only, with scalar total weight and the demand as aggregated. The equal weighted deviation of the converged "
+             "solution is not decided.",
+             "ast dependence / provenance (order-preserving) / sibling-agreement analysis"),
     "C12": C("Writer/reader table agreement: every (element, variable) ConstControl marks recyclable is read by a "
              "builder that the raised flag re-runs; every variable accepted for batch reading is provided by "
              "get_batch_outputs; stored Ybus/Sbus reused only when the corresponding flags are clear; a recycled run "
@@ -143,7 +151,6 @@ CLAIMS = {
 
 NOT_APPLICABLE = {
     "C06": "agreement of five iterative solvers and two back-ends is equality of numerical fixed points; no shape-of-code clause is a necessary condition of it (DESIGN.md section 5)",
-    "C10": "equal weighted slack deviation is a property of the converged Newton solution over run-time islands; not decidable from code shape (DESIGN.md section 5)",
     "C11": "equality of sequence-frame and single-phase solutions and per-phase balance are numerical; no structural clause beyond those checked for C01/C02 (DESIGN.md section 5)",
     "C21": "round-trip equality of power-flow results through ppc/mpc is numerical; a column-coverage proxy would fire on legitimate converter scope changes (DESIGN.md section 5)",
     "C29": "monotonicity of trip time in current depends on run-time characteristic data and interpolation (DESIGN.md section 5)",
